@@ -38,7 +38,7 @@ var NotApplicable = []NA{
 	
 	{"C09", "decision of the upgrader over all requests of a grammar x callback configurations: a pure function of the request bytes; the simulation only ever feeds it requests written by the library's own dialer (C11) or cuts of them (C16) (DESIGN.md §5)."},
 	{"C10", "decision of the dialer over all responses of a grammar and URL forms: a pure function of response bytes and configuration; only its 'bytes after the head stay readable' clause has a delivery dimension and that is checked inside C11/C16 (DESIGN.md §5)."},
-	{"C11", notYet}, {"C12", notYet}, {"C13", notYet},
+	{"C11", notYet}, 
 	{"C14", "a grid of (server parameters x offers) through a pure negotiator; the only history in it (reset) is covered by C18 (DESIGN.md §5)."},
 	{"C15", "'for arbitrary bytes never panics/hangs' explored by coverage-guided mutation is fuzzing of pure decoders, not simulation; panics or frozen step counters met inside claimed properties' runs are still reported there (DESIGN.md §5)."},
 	{"C17", notYet}, {"C19", notYet}, {"C20", notYet},
@@ -93,6 +93,18 @@ var All = []*Spec{
 		LevelText: "seeded exploration; the reply ledger is decoded by the reference decoder: ping -> one pong with identical payload, pong -> nothing, close -> same code / empty / 1002 (1002 or 1007 for a bad reason) with a body the RFC close rules accept; every reply is a single final frame <=125, masked iff sent by a client, accepted by ws.CheckHeader under the peer's state; return value is ClosedError{code,reason} or a ws.ProtocolError; the control writer never emits a frame >125 or non-final and refuses the write that would cross the limit.",
 		LevelNote: "whether the close reason is echoed and the mask value are not checked; codes 1012-1014 and >=5000 are never generated (left open by the property).",
 		DesignRef: "§4 C08", Technique: "deterministic simulation: seeded control frames through every entry point vs reference reply table"},
+	{ID: "C12", Engine: "wire", Level: "exploration", Quick: 6000, Thorough: 400000,
+		Rule: "each run draws a message (empty, tiny, incompressible, highly compressible, >32 KiB window), a compression level -2..9 and a history of Write(chunk)/Flush/Close on wsflate.Writer; or feeds wsflate.Reader the sync-flushed, tail-stripped output of an independent encoder (klauspost/compress or compress/flate used directly) through a segmented source with or without io.ByteReader; or exercises the frame helpers; or plugs in a faulty compressor (flush without sync marker, last byte dropped, stray byte after the marker, write error); non-trivial = history with more than one write/flush, an independent-encoder source, or a fault; distinct = trace digests",
+		Stub: append([]string{"compressor faults: wrappers around compress/flate injected through wsflate's constructor argument", "independent DEFLATE: github.com/klauspost/compress/flate v1.20.0 and compress/flate called directly"}, stubWire...), Assume: assumeCommon,
+		LevelText: "seeded exploration; oracle: writer output + 00 00 ff ff inflates (two independent decoders that must agree) to exactly the message after Flush and after Close; the reader recovers the message from the library's and from independent encoders' output for any chunking; helpers keep the header but RSV1/length and refuse non-final frames; a compressor that does not end a flush with the tail makes Flush fail.",
+		LevelNote: "the library contains no DEFLATE code of its own: what is under test is cbuf / suffixedReader / tail handling.",
+		DesignRef: "§4 C12", Technique: "deterministic simulation: seeded write/flush histories, segmented sources and injected compressor faults vs independent inflaters"},
+	{ID: "C13", Engine: "wire", Level: "exploration", Quick: 8000, Thorough: 600000,
+		Rule: "each run either writes 1-4 compressed/uncompressed messages through wsflate.Writer -> wsutil.Writer(SetExtensions(&state)) with buffer sizes forcing 1..n fragments, pings written between fragments, either side, and reads them back through wsutil.Reader{Extensions,StateExtended} -> wsflate.Reader under seeded segmentation; or lets a scripted peer send every RSV pattern (0..7) on first, control and continuation frames; non-trivial = every run; distinct = trace digests",
+		Stub: stubWire, Assume: assumeCommon,
+		LevelText: "seeded exploration; oracle on the wire (reference decoder): RSV1 on the first frame of compressed messages and nowhere else; on receipt IsCompressed() = first frame had RSV1, unchanged by control frames between fragments, header handed over has RSV1 cleared and RSV2/3 untouched, RSV1 on a continuation or control frame is a ws.ProtocolError; the message read back equals the message written.",
+		LevelNote: "compressor is compress/flate; reader-side draining after the inflater reaches the end of the DEFLATE stream is done by the application as documented.",
+		DesignRef: "§4 C13", Technique: "deterministic simulation: documented writer/reader stacks over a simulated transport + scripted RSV patterns"},
 	{ID: "C16", Engine: "wire", Level: "fault_enumeration", Quick: 640, Thorough: 64000, QuickCap: 150, ThorCap: 1700,
 		Rule: "workloads (stream, entry point, segmentation, application decisions) are sampled from the seed; for each workload the fault point is enumerated: every byte offset of the stream x {EOF, transport error} when the stream is <= 2 KiB (else all offsets around every header/frame boundary plus 64 seeded payload offsets), the same application decisions being replayed at every point; evaluations = workloads, fault_points_enumerated = executions; distinct = trace digests of workloads",
 		Stub: stubWire, Assume: assumeCommon,
